@@ -166,6 +166,10 @@ def main(ctx, replay=None):
     for r in accepted_O[:5]:
         ctx.violation(f"{r['fn']}{tuple(r['args'])} is accepted under `python -O`; the index algebra rejects it", r, {"fn": r["fn"], "clause": "rejected_under_O"})
 
+    # ---- string spellings as the package's own consumers meet them: column labels of a static table and attribute names ----------
+    # (every accepted string spelling of the oracle table - two-index and four-index - behind the prefixes the readers accept)
+    consumers(ctx, [r for r in table["modulus"] if r["kind"] == "str" and not r["rejected"]])
+
     # ---- T: record real-code calls and validate against the spec -----------------------------------
     records = _record_calls()
     ok, consumed, tres = validate_trace(ctx, "Trace_Voigt", "Trace_Voigt.cfg", records, name="voigt")
@@ -203,6 +207,66 @@ def main(ctx, replay=None):
         ctx.cov["controls"]["corrupted_trace_rejected"] = (not ok2)
         if ok2:
             raise MachineryError("corrupted Voigt trace was accepted: the trace spec does not bind")
+
+
+def consumers(ctx, rows):
+    """The static-table reader and the attribute look-up of the result interfaces spell components as strings (prefix + digits); the
+    key they arrive at must be the oracle's key for those digits: 'string ... two-index and four-index spellings ... agree'."""
+    import re
+    import tempfile
+    from pathlib import Path
+    from cij.io.traditional import read_elast_data
+    try:
+        from cij.core.calculator import REGEX_CIJ
+    except ImportError:                       # a module constant may be renamed: the attribute half is then skipped (and says so)
+        REGEX_CIJ = None
+        ctx.cov["attribute_names_skipped"] = True
+    import cij.util as U
+    prefixes = ["c", "C", "c_", "Cij", "S", "cij_"]
+    tmp = Path(tempfile.mkdtemp(prefix="cijverif.c10."))
+    try:
+        for chunk in range(0, len(rows), 9):
+            part = rows[chunk:chunk + 9]
+            # one table per chunk; the labels of one table must name distinct components, so a chunk keeps one spelling per class
+            seen, use = set(), []
+            for r in part:
+                if tuple(r["voigt"]) not in seen:
+                    seen.add(tuple(r["voigt"]))
+                    use.append(r)
+            labels = [prefixes[(chunk + i) % len(prefixes)] + "".join(str(x) for x in r["d"]) for i, r in enumerate(use)]
+            f = tmp / f"t{chunk}.dat"
+            f.write_text("labels\n100.0 2 50.0\nV " + " ".join(labels) + "\n" +
+                         "90.0 " + " ".join(str(10 + i) for i in range(len(use))) + "\n80.0 " + " ".join(str(30 + i) for i in range(len(use))) + "\n")
+            for r, lab in zip(use, labels):
+                ctx.count({"consumer": "static_table_label", "label": lab})
+            try:
+                data = read_elast_data(str(f))
+            except Exception as ex:
+                ctx.violation(f"read_elast_data rejects the column labels {labels}: {_r(ex)}", {"labels": labels}, {"fn": "consumer", "clause": "label_rejected"})
+                continue
+            got = data.volumes[0].static_elastic_modulus
+            for i, (r, lab) in enumerate(zip(use, labels)):
+                key = U.c_(*r["voigt"])
+                if key not in got or got[key] != 10 + i:
+                    where = [list(k.voigt) for k, v in got.items() if v == 10 + i]
+                    ctx.violation(f"static-table column '{lab}' is read as component {where}, the index algebra gives {r['voigt']}",
+                                  {"label": lab, "read_as": where, "expected": r["voigt"]}, {"fn": "consumer", "clause": "label_key"})
+        for i, r in enumerate(rows if REGEX_CIJ else []):
+            digits = "".join(str(x) for x in r["d"])
+            name = ("c" if i % 2 else "c_") + digits + ("", "s", "t")[i % 3]
+            ctx.count({"consumer": "attribute_name", "name": name})
+            m = re.search(REGEX_CIJ, name)
+            if not m:
+                ctx.violation(f"attribute name '{name}' is not recognised as a component", {"name": name}, {"fn": "consumer", "clause": "attr_rejected"})
+                continue
+            grp = [g for g in m.groups() if g and g.isdigit()]
+            got, exc = _try(U.c_, (grp[0],)) if grp else (None, "no digits")
+            if exc is not None or list(got.voigt) != r["voigt"]:
+                ctx.violation(f"attribute name '{name}' resolves to {_r(got) if exc is None else _r(exc)}, the index algebra gives {r['voigt']}",
+                              {"name": name}, {"fn": "consumer", "clause": "attr_key"})
+    finally:
+        import shutil
+        shutil.rmtree(tmp, ignore_errors=True)
 
 
 def _classify(args):
